@@ -65,6 +65,16 @@ CHECKS = {
         note="Trusted: Lean kernel, allowed axioms, stream, hooks. Outside the statement: duplicate keys. Not modelled: collectArgs and the binder (end-to-end only).",
         technique="Lean 4 proof (uniqueness of sorted permutations via List.Perm.eq_of_pairwise) + differential stream + exhaustive permutation end-to-end runs",
     ),
+    "C05": dict(
+        category="proof",
+        text="Full for the output assembly, partial for the runtime: Go map iteration is modelled as an ARBITRARY permutation and slices.SortFunc as an ARBITRARY sorted permutation; Lean proves the rendered "
+             "sequence is unique for both signature comparators (sort key = lexicographic encoding in the field order regenerated from signature.go; total/antisymmetric order lemmas), and that every `range` over a map in the module "
+             "(regenerated with go/types) is on a reviewed list. The real getters are run on real Go maps (fresh iteration order per call) against the model. End-to-end: each output mode, several separate processes with "
+             "varied GOMAXPROCS/GOGC, byte comparison (--define as a set).",
+        design="DESIGN.md §4 C05",
+        note="Trusted: Lean kernel, allowed axioms, extractor (go/types source importer), stream. Assumed: ties under the comparator render identically (key fields cover every printed field but document/private). Not modelled: scheduler, GC, watchdog race.",
+        technique="Lean 4 proof (uniqueness of sorted permutations under arbitrary map order) + regenerated comparator/map-range tables + differential stream + repeated-process byte comparison",
+    ),
 }
 
 PENDING_REASON = "check not built yet in this session (see DESIGN.md §4 for the planned Lean model and theorem); not claimed until its check exists"
